@@ -198,6 +198,14 @@ Proof.
     rewrite qquo_ok by exact E3. eexists. split; [reflexivity|right; split; [exact E3|reflexivity]].
 Qed.
 
+(* the tally uses the total function [stake_pure]: it IS StakeForShares, which never fails *)
+Lemma stake_for_shares_pure bal ts s : stake_for_shares bal ts s = Ok (stake_pure bal ts s).
+Proof.
+  unfold stake_for_shares, stake_pure.
+  destruct ((s =? 0) || (bal =? 0) || (ts =? 0)) eqn:E; [reflexivity|].
+  apply orb_false_iff in E as [E E3]. b2p. apply qquo_ok. exact E3.
+Qed.
+
 (* ---------- (b) rewards ---------- *)
 (* Preconditions: the two denominators are the non-zero package constants
    (staking/api/rewards.go:21-22 = 100_000_000, commission.go:414 = 100_000);
